@@ -49,6 +49,12 @@ pub fn battery<Ty: EdgeType, Ix: IndexType>(g: &Gr<Ty, Ix>) -> Vec<String> {
         || !crate::enc::rev_ok(g.edge_references()) { v.push("back-iteration-mismatch".into()); }
     if g.node_indices().any(|i| Some(&g[i]) != g.node_weight(i)) || g.edge_indices().any(|e| Some(&g[e]) != g.edge_weight(e)) { v.push("index-operator-mismatch".into()); }
     if g.node_indices().len() != g.node_count() || g.edge_indices().len() != g.edge_count() { v.push("exact-size-mismatch".into()); }
+    {   // the visit traits answer like the inherent methods; a visit map reset for this graph has room for every node
+        use petgraph::visit::{EdgeCount, NodeCount, NodeIndexable, Visitable};
+        let mut m = fixedbitset::FixedBitSet::default(); g.reset_map(&mut m);
+        if NodeCount::node_count(g) != g.node_count() || EdgeCount::edge_count(g) != g.edge_count() || NodeIndexable::node_bound(g) != g.node_count()
+            || m.len() < g.node_count() || g.visit_map().len() < g.node_count() { v.push("visit-trait-mismatch".into()); }
+    }
     v
 }
 
